@@ -96,11 +96,14 @@ EvOK(ev) ==
   CASE ev.k = "st_write" -> WriteOK(ev)
     [] ev.k = "st_read"  -> ReadOK(ev)
     [] ev.k = "nocopy"   -> NocopyOK(ev)
+    [] ev.k = "nclen"    -> \* the advertised no-copy lengths equal the copying lengths (= the encoded length)
+                            LET e == SegsLen(Enc("string", [segs |-> ev.segs])) IN
+                            ev.strnc = e /\ ev.binnc = e /\ ev.str = e /\ ev.bin = e
     [] ev.k = "msg_m"    -> MsgMarshalOK(ev)
     [] ev.k = "msg_u"    -> IF Prop = "C03" THEN ~ev.panic ELSE MsgUnmarshalOK(ev)
     [] OTHER -> TRUE
 
-Why(ev) == ev.k \o "/" \o ev.schema
+Why(ev) == ev.k \o "/" \o (IF "schema" \in DOMAIN ev THEN ev.schema ELSE "-")
 
 TraceInit == l = 1
 TraceNext ==
